@@ -156,7 +156,7 @@ def r2(ctx):
                               "cap passed to the slot-set writer is an intersection of two different slot sets: %s" % role_str(r),
                               "the new slot set passed to %s is %s — not an intersection of both sides' slot sets; a class may drop a slot its terms depend on" % (C.short(wid), role_str(r)),
                               where_of(c.body, c.bb))
-    ctx.floor("slot-writer call sites", nsites, 3)
+    ctx.floor("slot-writer call sites", nsites, 2)
 
 
 @rule("R3", doc="leader union: add-permutation only if same class, merge only if different class, both after slot sets agree")
